@@ -131,6 +131,8 @@ def units(ctx):
            for c in specs.clone_contracts()]
     us += [contract_unit(c, world_setup=specs.setup_definition)
            for c in specs.definition_contracts()]
+    us += [contract_unit(c, world_setup=specs.setup)
+           for c in specs.strip_contracts()]
     us += [contract_unit(c, world_setup=runner.setup)
            for c in runner.translate_contracts()]
     us += [contract_unit(c, world_setup=runner.setup_call)
